@@ -547,7 +547,7 @@ def run_world(world, wall_limit=20):
             [[{"name": r.name, "id": r.id, "cap": q} for r, q in w.resources.resources] for w in pool.workers]
             for pool in pools.worker_pools
         ]
-        trace["flags"] = fl
+        trace["flags"] = dict(fl, sched_rt=max(0, sc["runtime"]))
         trace["sc"] = sc
         uninstall = _install(tr)
         sim.simulate()
